@@ -5,7 +5,7 @@ import ast
 
 from .. import consteval, cstruct, render, sym
 from ..model import AnalysisError, Repo
-from ..report import Run
+from ..report import Run, take_over
 from ..sym import T, const, param
 
 EXPLANATION = (
@@ -40,30 +40,15 @@ def _short_read(c: T, pol: bool, raw: T, ks: int) -> bool:
     return False
 
 
-def _take_over(run, mod_name: str, prop: str, repo, select, rule: str, label: str, why: str, floor: int) -> None:
-    """Obligations of another check that are necessary conditions here as well (judged there, reported here too)."""
-    import importlib
-    from ..model import AnalysisError as _AE
-    other = importlib.import_module(f"vstatic.rules.{mod_name}")
-    probe = Run(prop, run.tier, run.repo_root)
-    probe.is_probe = True           # (a check run for its obligations only: it does not take over from others in turn)
-    try:
-        other.check(repo, probe)
-    except _AE:
-        pass            # the floor below fails if the obligations were not reached
-    n = 0
-    for o in probe.obligations:
-        if select(o):
-            n += 1
-            run.ob(rule, o["module"], o["scope"], f"{label} ({prop}/{o['rule']}): {o['construct']}", o["ok"],
-                   (o.get("what", "") + " - " + why) if not o["ok"] else "", nontrivial=False)
-    run.floor(rule, f"{label}: obligations taken over from {prop}", n, floor)
 
 
 def check(repo: Repo, run: Run) -> None:
-    _take_over(run, "c12", "C12", repo, lambda o: o["scope"] == "kevents" and o["rule"] in ("R1", "R2"), "R0",
+    take_over(run, "c12", "C12", repo, lambda o: o["scope"] == "kevents" and o["rule"] in ("R1", "R2"), "R0",
                "events listing", "PyKdebugParser.kevents of a version-2 dump then does not hand on exactly the events the "
                "container parser yields (an unfiltered request must list all m of them, in order)", 8)
+    take_over(run, "c14", "C14", repo, lambda o: o["rule"] == "R2" and o["scope"] in ("PyKdebugParser.__init__", "KdBufParser.__init__"),
+               "R0", "two tables", "the thread map fills a tid->pid table and a pid->name table: one object standing for both (or a "
+               "copy) holds neither after the dump was read", 3)
     interp = sym.Interp(repo)
     mod = repo.module("kd_buf_parser")
     kb = repo.cls("kd_buf_parser", "KdBufParser")
@@ -112,8 +97,14 @@ def check(repo: Repo, run: Run) -> None:
                          f"{len(outside)} other read(s) happen outside it: records are skipped, split or misaligned",
            facts={"reads": [(c.lineno, sym.pretty(c.args[0]) if c.args else None) for c in reads]}, line=lp.lineno)
     seeks = [c for c in rec.calls if c.func.op == "attr" and c.func.a[0] == reader and c.func.a[1] not in ("read",)]
+    measured = _measured_end(fn, fn.args.args[1].arg) if seeks and lp.func.endswith("parse_v2") else None
+    if measured is not None:
+        # `start = reader.tell(); end = reader.seek(0, SEEK_END); reader.seek(start)`: the position is where it was, `end`
+        # is the size of the stream; tell() itself moves nothing
+        seeks = [c for c in seeks if c.func.a[1] != "tell" and c.lineno not in measured["lines"]]
     run.ob("R1", MOD, "KdBufParser.parse_v2", "no seek / other stream operation", not seeks,
            f"parse_v2 also calls reader.{[c.func.a[1] for c in seeks]}", nontrivial=False)
+    end_test = measured is not None and not seeks and measured["loop_line"] == lp.lineno
     # exits: the loop is left exactly when the read is empty (break on an empty read, or `while <raw read>`)
     test_conds = streams.loop_test_conditions(rec, [lp.id])
     good_exit, bad_exit, short_raise = [], [], []
@@ -136,6 +127,9 @@ def check(repo: Repo, run: Run) -> None:
         (lp.kind == "for" and lp.iter is not None and lp.iter.op == "call" and not lp.iter.a[2] and (
             (lp.iter.a[0] == T("global", ("itertools.repeat",)) and len(lp.iter.a[1]) == 1)
             or (lp.iter.a[0] == T("global", ("itertools.count",)))))         # an endless iterator: `while True` in other words
+    if end_test and not good_exit:
+        # `while reader.tell() < end`: left exactly when nothing is left to read, which is when the next read would be empty
+        test_exit = True
     ok = not bad_exit and ((good_exit and trivially_true) or (test_exit and not good_exit) or (test_exit and good_exit))
     run.ob("R1", MOD, "KdBufParser.parse_v2", "the only loop exit is an empty read", ok,
            "" if ok else f"loop exits: {bad_exit or 'none on empty read'} (loop test {sym.pretty(lp.test)[:60] if lp.test is not None else None}): "
@@ -258,8 +252,17 @@ def check(repo: Repo, run: Run) -> None:
         stores = [e for e in srec.effects if e.kind == "sub-store" and lp2.id in e.loops]
         want_st = {(tp, T("attr", (ent, "tid")), T("attr", (ent, "pid"))),
                    (pn, T("attr", (ent, "pid")), T("attr", (ent, "process")))}
-        got_st = {((e.path or e.base), e.key, e.value) for e in stores if not e.pc}
-        cond_st = [e for e in stores if e.pc]
+        def _real_pc(pc):
+            # inside the loop over the thread map "the thread map is not empty" says nothing
+            out = []
+            for c, pol in pc:
+                atom, apol = render.norm_bool(c)
+                if (pol if apol else not pol) and (atom == tmap or atom == T("call", (T("builtin", ("len",)), (tmap,), ()))):
+                    continue
+                out.append((c, pol))
+            return out
+        got_st = {((e.path or e.base), e.key, e.value) for e in stores if not _real_pc(e.pc)}
+        cond_st = [e for e in stores if _real_pc(e.pc)]
         ok = got_st == want_st and not cond_st
         run.ob("R4", MOD, "KdBufParser.set_thread_map", "stores tid->pid and pid->name unconditionally", ok,
                "" if ok else ("set_thread_map does not store threads_pids[entry.tid] = entry.pid and pids_names[entry.pid] = "
@@ -280,6 +283,70 @@ def check(repo: Repo, run: Run) -> None:
     run.ob("R4", MOD, "KdBufParser", "table attributes are never rebound", not rebind,
            f"{[e.func.rsplit('.', 1)[-1] for e in rebind]} rebinds self.threads_pids / self.pids_names: the objects shared with "
            f"the caller and the trace decoder are no longer the ones updated", line=rebind[0].lineno if rebind else None)
+
+
+def _measured_end(fn, reader_name):
+    """Recognises, among the top-level statements of the function, the idiom that measures the stream without moving in it:
+         start = reader.tell(); end = reader.seek(0, SEEK_END) [or: reader.seek(0, SEEK_END); end = reader.tell()]; reader.seek(start)
+    followed by a loop `while reader.tell() < end` (or `!=`).  Returns the lines of the three calls and of the loop, or None
+    when any seek of the function has another form."""
+    def is_call(n, meth):
+        return isinstance(n, ast.Call) and isinstance(n.func, ast.Attribute) and n.func.attr == meth \
+            and isinstance(n.func.value, ast.Name) and n.func.value.id == reader_name and not n.keywords
+    def is_end_seek(n):
+        if not is_call(n, "seek") or len(n.args) != 2:
+            return False
+        a0, a1 = n.args
+        whence = (isinstance(a1, ast.Constant) and a1.value == 2) or (isinstance(a1, ast.Attribute) and a1.attr == "SEEK_END") \
+            or (isinstance(a1, ast.Name) and a1.id == "SEEK_END")
+        return isinstance(a0, ast.Constant) and a0.value == 0 and whence
+    saved, ends, lines, at_end, restored, loop_line = set(), set(), set(), False, False, None
+    for st in fn.body:
+        calls = [n for n in ast.walk(st) if isinstance(n, ast.Call) and isinstance(n.func, ast.Attribute)
+                 and isinstance(n.func.value, ast.Name) and n.func.value.id == reader_name]
+        if isinstance(st, ast.While):
+            t = st.test
+            if restored and isinstance(t, ast.Compare) and len(t.ops) == 1 and isinstance(t.ops[0], (ast.Lt, ast.NotEq)) \
+                    and is_call(t.left, "tell") and isinstance(t.comparators[0], ast.Name) and t.comparators[0].id in ends:
+                loop_line = st.lineno
+                inner = [n for b in st.body + st.orelse for n in ast.walk(b) if isinstance(n, ast.Call) and isinstance(n.func, ast.Attribute)
+                         and isinstance(n.func.value, ast.Name) and n.func.value.id == reader_name and n.func.attr in ("seek",)]
+                inner += [n for b in st.body + st.orelse for n in ast.walk(b) if isinstance(n, ast.Name) and n.id in ends
+                          and isinstance(n.ctx, ast.Store)]
+                if inner:
+                    return None
+                continue
+            if any(c.func.attr == "seek" for c in calls):
+                return None
+            continue
+        if isinstance(st, ast.Assign) and len(st.targets) == 1 and isinstance(st.targets[0], ast.Name):
+            name, v = st.targets[0].id, st.value
+            if is_call(v, "tell") and not v.args:
+                (ends if at_end else saved).add(name)
+                lines.add(v.lineno)
+                continue
+            if is_end_seek(v) and saved:
+                ends.add(name); at_end = True; lines.add(v.lineno)
+                continue
+            saved.discard(name); ends.discard(name)
+        if isinstance(st, ast.Expr):
+            v = st.value
+            if is_end_seek(v) and saved:
+                at_end = True; lines.add(v.lineno)
+                continue
+            if at_end and is_call(v, "seek") and len(v.args) == 1 and isinstance(v.args[0], ast.Name) and v.args[0].id in saved:
+                at_end = False; restored = True; lines.add(v.lineno)
+                continue
+        if any(c.func.attr == "seek" for c in calls):
+            return None
+        uses = [n for n in ast.walk(st) if isinstance(n, ast.Name) and n.id == reader_name]
+        if any(c.func.attr not in ("tell",) for c in calls) or len(uses) > len(calls):
+            if at_end:
+                return None
+            saved.clear()       # a read (or handing the stream to someone else) moves it: positions taken before are stale
+    if not restored or at_end or loop_line is None:
+        return None
+    return {"lines": lines, "loop_line": loop_line}
 
 
 def _loop_pc(rec, lp):
